@@ -2,6 +2,7 @@ import NixModel.Lemmas.C13Shape
 import NixModel.Lemmas.C13Ids
 import NixModel.Lemmas.C13Supplied
 import NixModel.Lemmas.C13IdsRef
+import NixModel.Lemmas.C13IdsRel
 import NixModel.Generated.FindShape
 import NixModel.Generated.IdLookup
 
@@ -309,18 +310,13 @@ speak about *every* assignment `texts` of id texts to the entities: library-made
 section IdTexts
 open Nix.Tree.Shape Nix.Tree.Ids Nix.Generated Nix.Py
 
-/-- **the look-up by id as extracted compares the text as given** — no spelling is changed on the way: the id that
-`create_section(oid=…)` stores is the text supplied (for a text `util.is_uuid` accepts; otherwise the library's own),
-and `text in container` holds iff a child's stored id is that very text (asked only when the text is an id) or a
-child has that name.  An edit that normalises the key (or the stored id) on one side only changes a generated
-constant and breaks this theorem. -/
-theorem id_lookup_code :
-    (∀ oid, storedId IdLookup.shape oid = if uuidAccepts oid then some oid else none) ∧
-    (∀ cs t, containsT IdLookup.shape cs t =
-      ((uuidAccepts t && cs.any (fun c => c.id == t)) || cs.any (fun c => c.name == t))) := by
-  have h1 : IdLookup.shape.idKey = .asGiven := by decide
-  have h2 : IdLookup.shape.stored = .asGiven := by decide
-  exact ⟨fun oid => by simp [storedId, h2, KeyNorm.apply], containsT_asGiven _ h1⟩
+/-- **the look-up by id as extracted compares the text as given** — no spelling is changed on the way:
+`text in container` holds iff a child's stored id is that very text (asked only when the text is an id) or a child
+has that name.  An edit that normalises the key changes a generated constant and breaks this theorem. -/
+theorem id_lookup_code (cs : List Child) (t : String) :
+    containsT IdLookup.shape cs t =
+      ((uuidAccepts t && cs.any (fun c => c.id == t)) || cs.any (fun c => c.name == t)) :=
+  containsT_asGiven _ (by decide) cs t
 
 /-- **`Section.parent`, every id comparison made on the stored id texts, is the containing section** (none at the
 top level) for every assignment of id texts that are pairwise different, are ids and are nobody's name - whatever
@@ -384,6 +380,21 @@ theorem referring_ids_code (texts : Nat → String) (inj : TextsInj texts) (f : 
   refine ⟨fun e he => ?_, ?_, (referring_objects_code f hB k).2⟩
   · rw [refListT_eq inj]; exact (referring_code f k e he).1
   · rw [refObjectsT_eq inj]; exact (referring_objects_code f hB k).1
+
+/-- **`Section.find_related` with every id comparison on the stored texts** (the parent's search, the test
+`self in result`) lists parent, siblings, the section and its children, as `find_related_code` says -/
+theorem find_related_ids_code (texts : Nat → String) (inj : TextsInj texts) (f : File) (h : WF f)
+    (ok : IdsOK texts f.sections) (useCache : Bool) (filt : Node → Bool) :
+    (∀ x ∈ f.sections,
+      findRelatedT FindShape.sectionParent FindShape.related IdLookup.shape texts f x.key useCache filt =
+        .ok ((x :: x.children).filter filt)) ∧
+    (∀ p ∈ nodesL f.sections, ∀ x ∈ p.children,
+      findRelatedT FindShape.sectionParent FindShape.related IdLookup.shape texts f x.key useCache filt =
+        .ok (eraseKey x.key ((p :: p.children).filter filt) ++ (x :: x.children).filter filt)) := by
+  have e := fun k => findRelatedT_eq FindShape.sectionParent FindShape.related IdLookup.shape (by decide) inj ok k
+    useCache filt
+  simp only [e]
+  exact find_related_code f h useCache filt
 
 end IdTexts
 
@@ -503,9 +514,9 @@ example : Ids.sectionParentT Generated.FindShape.sectionParent Generated.IdLooku
 /-- the look-up itself: the upper-case id is found among the children as it is stored, its lower-case spelling is not
 (another text: `id in container` never re-spells), a name is -/
 example : Ids.containsT Generated.IdLookup.shape [⟨exTexts 3, "a"⟩] (exTexts 3) = true := by
-  rw [id_lookup_code.2]; decide +kernel
+  rw [id_lookup_code]; decide +kernel
 example : Ids.containsT Generated.IdLookup.shape [⟨exTexts 0, "a"⟩] "a0000000-0000-4000-8000-00000000000a" = false := by
-  rw [id_lookup_code.2]; decide +kernel
+  rw [id_lookup_code]; decide +kernel
 example : Ids.canonText? (exTexts 1) = some "b1111111-1111-4111-8111-11111111111b" := by decide +kernel
 example : Ids.canonText? (exTexts 3) = some "d3333333-3333-4333-8333-3333333333d3" := by decide +kernel
 
